@@ -232,7 +232,8 @@ type txnOracle struct {
 	init      map[int32]int32 // initial value per key
 	writer    map[int32]int   // token -> txn id (-1 initial)
 	hist      []HTxn
-	stmtLevel bool // statements did not overlap (single driver): exact visibility oracle applies
+	stmtLevel bool           // statements did not overlap (single driver): exact visibility oracle applies
+	vol       map[int32]bool // see volatileKeys
 }
 
 func newOracle(rows int, hist []HTxn, stmtLevel bool) *txnOracle {
@@ -329,6 +330,10 @@ func (o *txnOracle) effects() (map[int32][]netEff, []*HTxn) {
 		}
 		state = view
 	}
+	o.vol = volatileKeys(o.rows, o.hist)
+	for k := range o.vol {
+		delete(out, k)
+	}
 	return out, committed
 }
 
@@ -367,6 +372,9 @@ func (o *txnOracle) c04() []Violation {
 					// statement (a delete whose commit had begun may or may not be seen)
 					if ownDef[k] {
 						continue // already written by this transaction: it holds the row's X lock
+					}
+					if o.vol[k] {
+						continue // existence depends on timing: not claimed
 					}
 					present := int(k) <= o.rows
 					ambiguous := false
@@ -447,7 +455,7 @@ func (o *txnOracle) c04() []Violation {
 				// hiding: a key in the statement's range whose committed state is "present" for the
 				// whole window (no other writer of it committed or was in flight in the window) must appear
 				for _, k := range s.St.keys(o.rows) {
-					if seen[k] || ownDel[k] {
+					if seen[k] || ownDel[k] || o.vol[k] {
 						continue
 					}
 					if _, ok := own[k]; ok {
@@ -758,6 +766,46 @@ func execTxnSim(seed uint64, cfg TxnSimCfg, dir string) (res txnSimResult) {
 	return
 }
 
+// volatileKeys: keys whose *existence* is changed by one committed transaction (insert or delete) and
+// which are also written by another committed transaction. Whether an UPDATE or DELETE of such a key
+// found the row depends on the moment the statement ran, not on the commit order (the property exempts
+// rows that newly match or stop matching a predicate: phantoms), so the commit-order replay that the
+// oracles use says nothing reliable about them: they are left out of the state-based checks.
+func volatileKeys(rows int, hist []HTxn) map[int32]bool {
+	writers := map[int32]map[int]bool{}
+	insDel := map[int32]bool{}
+	for i := range hist {
+		t := &hist[i]
+		if t.Outcome != "committed" {
+			continue
+		}
+		for _, s := range t.Stmts {
+			if s.Status != "ok" {
+				continue
+			}
+			switch s.St.Kind {
+			case "write", "writerange", "insert", "delete":
+				for _, k := range s.St.keys(rows) {
+					if writers[k] == nil {
+						writers[k] = map[int]bool{}
+					}
+					writers[k][t.ID] = true
+					if s.St.Kind == "insert" || s.St.Kind == "delete" {
+						insDel[k] = true
+					}
+				}
+			}
+		}
+	}
+	vol := map[int32]bool{}
+	for k, ws := range writers {
+		if len(ws) >= 2 && insDel[k] {
+			vol[k] = true
+		}
+	}
+	return vol
+}
+
 // hasDupKeys: two transactions that each found key k absent may both insert it (no uniqueness
 // constraint, phantoms are allowed): the row-per-key model of the oracles does not apply to such a run.
 func hasDupKeys(final [][]any) bool {
@@ -809,11 +857,20 @@ func finalStateCheck(rows int, hist []HTxn, final [][]any) *Violation {
 			}
 		}
 	}
+	vol := volatileKeys(rows, hist)
 	var want [][]any
 	for k, v := range state {
-		want = append(want, []any{k, v})
+		if !vol[k] {
+			want = append(want, []any{k, v})
+		}
 	}
-	w, g := canonRows(want), canonRows(final)
+	var finalStable [][]any
+	for _, r := range final {
+		if k, _ := r[0].(int32); !vol[k] {
+			finalStable = append(finalStable, r)
+		}
+	}
+	w, g := canonRows(want), canonRows(finalStable)
 	if !sameStrings(w, g) {
 		return &Violation{Property: "C05", Class: "final-state-not-serial", Detail: "final table differs from the committed writes applied in commit order: " + diffStrings(w, g)}
 	}
@@ -860,7 +917,11 @@ func abortTraceCheck(rows int, hist []HTxn, final [][]any) *Violation {
 		for k := int32(1); k <= int32(rows); k++ {
 			exp[k] = true
 		}
+		vol := volatileKeys(rows, hist)
 		for k, id := range abortedKey {
+			if vol[k] {
+				continue
+			}
 			if _, present := got[k]; !present && exp[k] {
 				// deleted by nobody who committed?
 				deletedByCommitted := false
